@@ -529,15 +529,17 @@ Fixpoint is_root_mod_p (qs : list Z) (g p : Z) : bool :=
   | q :: rest => if powm_nn g (Z.quot (p - 1) q) p =? 1 then false else is_root_mod_p rest g p
   end.
 
-Fixpoint find_root (cnt : nat) (qs : list Z) (g p : Z) : Z :=
+Fixpoint find_root (cnt : nat) (qs : list Z) (g p : Z) : res Z :=
+  (* while (g < p) { if g is a root: break; ++g; }   the least primitive root is tiny, so the
+     fuel is capped; running out of it is the observable value ErrFuel *)
   match cnt with
-  | O => g
-  | S c => if g <? p then (if is_root_mod_p qs g p then g else find_root c qs (g + 1) p) else g
+  | O => ErrFuel
+  | S c => if g <? p then (if is_root_mod_p qs g p then Ok g else find_root c qs (g + 1) p) else Ok g
   end.
 
 Definition primitive_root_pe (p e : Z) (even : bool) : res Z :=
   do qs <- nt_prime_factors (p - 1);
-  let g := find_root (Z.to_nat p) qs 2 p in
+  do g <- find_root (S (Z.to_nat (Z.min p 65536))) qs 2 p;
   let g1 := if (1 <? e) && (powm_nn g (p - 1) (p * p) =? 1) then g + p else g in
   Ok (if even && (Z.rem g1 2 =? 0) then g1 + p ^ e else g1).
 
